@@ -174,7 +174,17 @@ func c14Body(s *simkit.Sim, rc *simkit.RunCtx) {
 					fin = true
 				case "flaky":
 					if n < sc.K {
-						err = errors.New("scripted failure")
+						// a recoverable failure, in the shapes subscribers produce them (the VCR's wraps context errors)
+						switch (int(ev.Hash[1]) + n) % 4 {
+						case 0:
+							err = errors.New("scripted failure")
+						case 1:
+							err = fmt.Errorf("scripted failure: storage took too long: %w", context.Canceled)
+						case 2:
+							err = fmt.Errorf("scripted failure: %w", context.DeadlineExceeded)
+						default:
+							err = context.Canceled
+						}
 					} else {
 						fin = true
 					}
